@@ -641,12 +641,86 @@ func sameNameCases(yield func(*ConvCase) bool) bool {
 	return true
 }
 
+// ---- length-delimited fields whose tags start with the same byte -------------------------------------
+
+// CongruentProgram: field numbers congruent mod 16 with tags of the same length (17/33/49, 18/34, 19/35).
+func CongruentProgram() *Program {
+	sub := &Msg{Name: "SubC", Fields: []*Field{F("a", 1, Int32)}}
+	t := &Msg{Name: "T", Fields: []*Field{F("lo", 1, Int32), F("rs", 17, String).Repeated(), F("m", 18, Int32).MapOf(String), FM("rm", 19, "SubC").Repeated(),
+		F("s", 33, String), F("b", 34, Bytes), FM("sm", 35, "SubC"), F("rs2", 49, String).Repeated()}}
+	f := &File{Path: "main.proto", Pkg: Pkg, Msgs: []*Msg{sub, t}, Svcs: []*Service{OneMethodService("T", "T")}}
+	return &Program{Name: "congruent", Main: "main.proto", Files: []*File{f}}
+}
+
+func congruentCases(yield func(*ConvCase) bool) bool {
+	prog := CongruentProgram()
+	for _, which := range []string{"rs+s", "m+b", "rm+sm", "rs+rs2", "all"} {
+		which := which
+		has := func(n string) bool {
+			if which == "all" {
+				return true
+			}
+			for _, x := range strings.Split(which, "+") {
+				if x == n {
+					return true
+				}
+			}
+			return false
+		}
+		c := &ConvCase{Prog: prog, What: "fields with congruent numbers: " + which, Focus: "same-first-tag-byte",
+			Build: func(ref *Ref) protoreflect.Message {
+				root := dynamicpb.NewMessage(ref.Msg(Pkg + ".T"))
+				fs := root.Descriptor().Fields()
+				subOf := func(a int32) protoreflect.Message {
+					sm := dynamicpb.NewMessage(fs.ByName("sm").Message())
+					sm.Set(sm.Descriptor().Fields().ByName("a"), protoreflect.ValueOfInt32(a))
+					return sm
+				}
+				if has("rs") {
+					l := root.Mutable(fs.ByName("rs")).List()
+					l.Append(protoreflect.ValueOfString("a"))
+					l.Append(protoreflect.ValueOfString("b"))
+				}
+				if has("s") {
+					root.Set(fs.ByName("s"), protoreflect.ValueOfString("hello"))
+				}
+				if has("m") {
+					mp := root.Mutable(fs.ByName("m")).Map()
+					mp.Set(protoreflect.ValueOfString("k").MapKey(), protoreflect.ValueOfInt32(1))
+					mp.Set(protoreflect.ValueOfString("j").MapKey(), protoreflect.ValueOfInt32(2))
+				}
+				if has("b") {
+					root.Set(fs.ByName("b"), protoreflect.ValueOfBytes([]byte{0x0a, 1, 'x', 0x10, 7}))
+				}
+				if has("rm") {
+					l := root.Mutable(fs.ByName("rm")).List()
+					l.Append(protoreflect.ValueOfMessage(subOf(1)))
+					l.Append(protoreflect.ValueOfMessage(subOf(2)))
+				}
+				if has("sm") {
+					root.Set(fs.ByName("sm"), protoreflect.ValueOfMessage(subOf(3)))
+				}
+				if has("rs2") {
+					root.Mutable(fs.ByName("rs2")).List().Append(protoreflect.ValueOfString("c"))
+				}
+				if which == "all" {
+					root.Set(fs.ByName("lo"), protoreflect.ValueOfInt32(5))
+				}
+				return root
+			}}
+		if !yield(c) {
+			return false
+		}
+	}
+	return true
+}
+
 // ---- scope -----------------------------------------------------------------------------------------
 
 // ScopeGroups lists the groups of the shared conversion scope.
 func ScopeGroups(tier string) []string {
 	g := append([]string{}, valueGroups...)
-	g = append(g, "presence", "jsonnames", "recursion", "samename")
+	g = append(g, "presence", "jsonnames", "recursion", "samename", "congruent")
 	g = append(g, structGroups()...)
 	return g
 }
@@ -666,6 +740,8 @@ func ScopeEnumerate(tier, group string, yield func(*ConvCase) bool) bool {
 		return recursionCases(tier, yield)
 	case group == "samename":
 		return sameNameCases(yield)
+	case group == "congruent":
+		return congruentCases(yield)
 	}
 	panic("harness: unknown scope group " + group)
 }
